@@ -119,6 +119,12 @@ func Reaches(a, b ssa.Instruction) bool {
 // ReachesAvoiding reports whether some feasible path from (after) a reaches b
 // without executing any instruction for which avoid returns true.
 func ReachesAvoiding(a, b ssa.Instruction, avoid func(ssa.Instruction) bool) bool {
+	return ReachesAvoidingEdges(a, b, avoid, nil)
+}
+
+// ReachesAvoidingEdges is ReachesAvoiding that additionally never follows a
+// blocked edge.
+func ReachesAvoidingEdges(a, b ssa.Instruction, avoid func(ssa.Instruction) bool, blocked map[Edge]bool) bool {
 	if a == nil || b == nil || a.Parent() != b.Parent() {
 		return false
 	}
@@ -135,14 +141,14 @@ func ReachesAvoiding(a, b ssa.Instruction, avoid func(ssa.Instruction) bool) boo
 		}
 		return false, false
 	}
-	found, blocked := scan(a.Block(), InstrIndex(a)+1)
+	found, blk := scan(a.Block(), InstrIndex(a)+1)
 	if found {
 		return true
 	}
-	if blocked {
+	if blk {
 		return false
 	}
-	w := newWalker(nil)
+	w := newWalker(blocked)
 	for _, t := range feasibleSuccs(a.Block(), nil) {
 		w.push(a.Block(), t)
 	}
